@@ -27,7 +27,8 @@ LEVEL_TEXT = ("Seeded exploration over model configurations, register contents a
 LEVEL_NOTE = "Trusted: peer register file (frozen); equality is between two answers of the library itself."
 TECHNIQUE = "deterministic simulation: frozen peer, bulk read vs single read for every id, capability-change histories"
 
-FILLS = [("zero", 0), ("ff", 0), ("bound", 1), ("bound", 2), ("hash", 1), ("hash", 2), ("step", 3), ("step", 4)]
+FILLS = [("zero", 0), ("ff", 0), ("bound", 1), ("bound", 2), ("hash", 1), ("hash", 2), ("step", 3), ("step", 4),
+         ("sp32a", 1), ("sp32b", 1)]
 HISTORIES = ["plain", "battery_off_on", "battery_on_off", "single_first", "before_info", "settings_first"]
 REPS = {"quick": 1, "thorough": 12}
 _SPACE = {}
